@@ -60,6 +60,7 @@ type Contract struct {
 		E    *Expr
 	}
 	Ghost   []string
+	Split   []*Clause // case split: one verification unit per case (added to the preconditions) + exhaustiveness obligation
 	Ats     []*AtStmt
 	Options map[string]string
 	File    string
@@ -310,6 +311,12 @@ func (cs *ContractSet) ParseFile(path string, pkgPath string) {
 				Name string
 				E    *Expr
 			}{strings.TrimSpace(kv[0]), e})
+		case "split":
+			for _, part := range splitTopLevel(rest, '|') {
+				if c := mkClause(part); c != nil {
+					cur.Split = append(cur.Split, c)
+				}
+			}
 		case "ghost":
 			cur.Ghost = append(cur.Ghost, rest)
 		case "at":
@@ -327,6 +334,9 @@ func (cs *ContractSet) ParseFile(path string, pkgPath string) {
 				as.Ordinal, _ = strconv.Atoi(pt[2])
 			case len(pt) == 2 && pt[0] == "store":
 				as.PointKind = "store"
+				as.Ordinal, _ = strconv.Atoi(pt[1])
+			case len(pt) == 2 && pt[0] == "loopbody":
+				as.PointKind = "loopbody"
 				as.Ordinal, _ = strconv.Atoi(pt[1])
 			case len(pt) == 2 && pt[0] == "go":
 				as.PointKind = "go"
